@@ -55,6 +55,38 @@ def c09_violations(plan: dict, result: dict):
     return out
 
 
+def c09_cli_rules(plan: dict, result: dict):
+    """What 'the command line reports success' must mean:
+      * a compile invocation (a language, no -c/-h/-v) that ends with status 0 wrote its
+        output files (two for C, one otherwise) -- success without output is neither of the
+        two outcomes the property allows;
+      * if parse() of the very same path, in the same state of the disk, was rejected right
+        before, the command line must not report success for it."""
+    out = []
+    ops = plan["ops"]
+    hist = {r["i"]: r for r in result["history"]}
+    for i, op in enumerate(ops):
+        rec = hist.get(i)
+        if rec is None or op["op"] != "cli" or rec.get("outcome") != "ok" or rec.get("fired"):
+            continue
+        argv = list(op.get("argv") or [])
+        if not argv or argv[0] not in ("c", "go", "py") or any(a in argv for a in ("-c", "--check", "-h", "--help", "-v", "--version")):
+            continue
+        need = 2 if argv[0] == "c" else 1
+        # judged on what IS there afterwards, not on what was written: an implementation that
+        # leaves an up-to-date file untouched is fine (no assumption about file names either)
+        have = len(rec.get("outputs") or {}) if "outputs" in rec else None
+        if have is not None and have < need and len(rec.get("wrote") or []) < need:
+            out.append({"sig": "cli:success-without-output", "op_index": i, "op": "cli", "outcome": "ok", "msg": "exit status 0 for %r but the output directory holds %d generated file(s) and %d were written" % (argv, have, len(rec.get("wrote") or []))})
+            continue
+        pair = op.get("paired_parse")
+        if pair is not None and pair in hist:
+            pr = hist[pair]
+            if pr.get("outcome", "").startswith("parser_error:") and not pr.get("fired"):
+                out.append({"sig": "cli:success-for-rejected-schema", "op_index": i, "op": "cli", "outcome": "ok", "msg": "parse() of the same path was rejected (%s) but the command line exited 0" % pr["outcome"]})
+    return out
+
+
 def c09_silent_failures(res0: dict, res1: dict):
     """Reported success must mean the output is there. An operation of the
     faulted pass in which a write-side fault fired and which nevertheless ended
